@@ -400,7 +400,9 @@ impl Interrupter {
 fn make_opts(cfg: &RunCfg) -> (StreamOpts<'static, 'static>, Interrupter) {
     let mut opts = StreamOpts::new();
     if cfg.rev {
-        opts = opts.rev();
+        for _ in 0..=cfg.rev_again {
+            opts = opts.rev();
+        }
     }
     #[cfg(feature = "intr")]
     {
